@@ -10,7 +10,9 @@
 // parameters (declared ones with wrong/huge/duplicated values, undeclared ones), headers (Range, Accept,
 // Accept-Language, Accept-Encoding, Authorization, Content-Type) and bodies (per-route JSON templates with
 // type-aware mutations, invalid JSON, huge numbers, deep nesting, empty), as a root administrator, as an
-// ordinary user, with broken credentials and anonymously.
+// ordinary user, with broken credentials and anonymously. Authenticated routes are also sent a systematic list of
+// structurally hostile credentials (c40HostileCreds: every ciphertext magic x every payload length, damaged tokens,
+// non-hex / odd-length / empty / very long bearer tokens, malformed Basic credentials).
 //
 // Oracle: the last-resort recovery in ServeHTTP (reportRequestPanic) must never run. It is observed through
 // the server's own switch: with ego.server.panic.recovery=false reportRequestPanic re-panics, so the panic
@@ -562,6 +564,219 @@ var c40BadAuth = []string{"Basic", "Basic ", "Basic !!!", "Basic " + base64.StdE
 	"Bearer " + strings.Repeat("00", 40), "İearer x", "bearerİ x", "Digest username=x", " ", "Bearer " + strings.Repeat("G", 9000), "Negotiate", "Basic Og==",
 	"Basic", "Basic =", "Bearer x y", "Bearer é", "Basic " + strings.Repeat("QUFB", 3000), "basic dTpw", "Bearer\tx", "Bearer z", "Basic dXNlcg==", "Bearer .."}
 
+// c40Magics are the 4-byte version prefixes util.Decrypt dispatches on (v3 argon2id "\xffEG3", v2 PBKDF2 "\xffEGO"), one
+// prefix no version uses yet, and none (the legacy format). The prefix of a token the server issued is added at run time.
+var c40Magics = []string{"\xffEG3", "\xffEGO", "\xffEG4", ""}
+
+// c40Filler is n bytes of payload after a magic: never all equal, so that a salt / nonce / tag boundary cannot hide.
+func c40Filler(n, k int) string {
+	b := make([]byte, n)
+	for i := range b {
+		b[i] = byte(i*37 + 11 + k*101)
+	}
+
+	return string(b)
+}
+
+// c40KeyDerivation tells whether a bearer token of this shape makes util.Decrypt derive a key (argon2id ~0.3 s CPU,
+// PBKDF2 ~50 ms): a versioned ciphertext whose salt is complete. Such credentials are thinned in the quick tier.
+func c40KeyDerivation(magic string, n int) bool {
+	return (magic == "\xffEG3" || magic == "\xffEGO") && n >= 16
+}
+
+type c40Cred struct {
+	header string
+	costly bool // costs a key derivation on the unchanged tree
+}
+
+// c40HostileCreds is the systematic list of structurally hostile credentials: bearer tokens that are the hex of every
+// ciphertext magic followed by EVERY payload length 0..max (truncated salt, salt only, truncated nonce, nonce only,
+// truncated tag, tag only, one block), the same in upper case, odd-length and non-hex variants, truncations and
+// alterations of a token the server issued, empty and very long tokens; Basic credentials with malformed base64, no
+// colon, empty halves, control bytes and very long halves.
+func (e *c40Env) c40HostileCreds() []c40Cred {
+	res := []c40Cred{}
+	magics := append([]string{}, c40Magics...)
+	tok := verifh.UnHex(e.tokens["admin"]) // the raw ciphertext of a good token
+
+	if len(tok) > 4 {
+		known := false
+
+		for _, m := range magics {
+			known = known || m == tok[:4]
+		}
+
+		if !known {
+			magics = append(magics, tok[:4])
+		}
+	}
+
+	top := verifh.N(40, 64)
+	// the lengths at which a key is derived that the quick tier keeps for the argon2id format: around the salt, nonce and tag boundaries
+	keep := map[int]bool{16: true, 17: true, 27: true, 28: true, 29: true, 43: true, 44: true, 45: true, 60: true}
+
+	for _, m := range magics {
+		for n := 0; n <= top; n++ {
+			costly := c40KeyDerivation(m, n) || (m != "" && len(tok) > 4 && m == tok[:4] && n >= 16)
+			if costly && m != "\xffEGO" && !verifh.Thorough() && !keep[n] {
+				continue
+			}
+
+			h := verifh.Hex(m + c40Filler(n, len(m)))
+			if h == "-" {
+				h = ""
+			}
+
+			res = append(res, c40Cred{"Bearer " + h, costly})
+
+			if n < 16 && m != "" {
+				res = append(res, c40Cred{"Bearer " + strings.ToUpper(h), false}, // hex.DecodeString accepts upper case
+					c40Cred{"Bearer " + h + "0", false},                          // odd length
+					c40Cred{"Bearer " + h + "zz", false},                         // not hex after the magic
+					c40Cred{"bearer   " + h + "  ", false})
+			}
+		}
+
+		if m != "" {
+			// the magic alone, cut inside, and with an all-zero / all-ones payload
+			for cut := 1; cut < len(m); cut++ {
+				res = append(res, c40Cred{"Bearer " + verifh.Hex(m[:cut]), false})
+			}
+
+			for _, n := range []int{1, 8, 15} {
+				res = append(res, c40Cred{"Bearer " + verifh.Hex(m+strings.Repeat("\x00", n)), false},
+					c40Cred{"Bearer " + verifh.Hex(m+strings.Repeat("\xff", n)), false})
+			}
+		}
+	}
+
+	// very long tokens: hex and not, with and without a magic (one key derivation each with a magic)
+	for _, m := range []string{"\xffEGO", ""} {
+		res = append(res, c40Cred{"Bearer " + verifh.Hex(m+c40Filler(70000, 3)), m != ""})
+	}
+
+	res = append(res, c40Cred{"Bearer " + strings.Repeat("ff45474f", 4000) + "x", false},
+		c40Cred{"Bearer " + strings.Repeat("ÿEG3", 500), false})
+
+	// a good token damaged: one byte short, tag removed, last byte changed, one byte more (a key derivation each);
+	// cut after every byte of magic+salt and to an odd number of hex digits (cheap)
+	if good := e.tokens["admin"]; len(good) > 80 {
+		flip := "0"
+		if good[len(good)-1] == '0' {
+			flip = "1"
+		}
+
+		res = append(res, c40Cred{"Bearer " + good[:len(good)-2], true}, c40Cred{"Bearer " + good[:len(good)-1] + flip, true})
+
+		if verifh.Thorough() {
+			res = append(res, c40Cred{"Bearer " + good[:len(good)-32], true}, c40Cred{"Bearer " + good + "00", true},
+				c40Cred{"Bearer " + good[:2*(4+16+12)], true}, c40Cred{"Bearer " + good[:2*(4+16+12)+2], true})
+		}
+
+		for n := 0; n < 2*(4+16); n++ {
+			res = append(res, c40Cred{"Bearer " + good[:n], false})
+		}
+
+		res = append(res, c40Cred{"Bearer " + good[:len(good)-1], false}, c40Cred{"Bearer " + good[8:], false},
+			c40Cred{"Bearer " + good[:8] + good[8+32:], false}, c40Cred{"Bearer " + strings.ToUpper(good[:30]), false})
+	}
+
+	b64 := base64.StdEncoding.EncodeToString
+
+	for _, v := range []string{"Basic %%%", "Basic QQ", "Basic QUJD=", "Basic ====", "Basic -_-_", "Basic Q Q=", "Basic\t" + b64([]byte("a:b")), "Basic  " + b64([]byte("a:b")),
+		"Basic " + b64([]byte("nocolon-"+c40Admin)), "Basic " + b64([]byte(c40Admin)), "Basic " + b64([]byte(":"+c40AdminPass)), "Basic " + b64([]byte(c40Admin+":")),
+		"Basic " + b64([]byte("::")), "Basic " + b64([]byte("a\x00b:c\x00d")), "Basic " + b64([]byte("\xffEG3:\xffEGO")), "Basic " + b64([]byte("a\nb:c\r\nd")),
+		"Basic " + b64([]byte(strings.Repeat("u", 70000)+":p")), "Basic " + b64([]byte("u:"+strings.Repeat("p", 70000))), "Basic " + b64([]byte("İ:ı")),
+		"Basic " + base64.RawStdEncoding.EncodeToString([]byte("ab:c")), "Basic " + base64.URLEncoding.EncodeToString([]byte("\xfb\xff:\xfe")),
+		"Basic " + b64([]byte(c40Admin+":"+c40AdminPass))[:20], "Basic " + b64([]byte("{{x}}:{{y...}}")), "Basic " + b64([]byte("../..:%00"))} {
+		res = append(res, c40Cred{v, false})
+	}
+
+	return res
+}
+
+// credentials aims every hostile credential at one authenticated route, and the cheap ones also at the other
+// authenticated routes in turn (the credential is examined before the handler runs, but by code the route chooses:
+// lightweight routes, permission checks, the token cache).
+func (e *c40Env) credentials() []c40Req {
+	res := []c40Req{}
+	targets := []router.VerifC40Route{}
+
+	for _, rt := range e.routes {
+		if rt.MustAuth && rt.HasHandler && !strings.Contains(rt.Endpoint, "{{") {
+			targets = append(targets, rt)
+		}
+	}
+
+	if len(targets) == 0 {
+		e.t.Fatalf("no authenticated route without path variables in the route table")
+	}
+
+	first := targets[0]
+
+	for _, rt := range targets {
+		if rt.Method == http.MethodGet && !c40Costly(rt.Endpoint) {
+			first = rt
+
+			break
+		}
+	}
+
+	mk := func(rt router.VerifC40Route, c c40Cred) c40Req {
+		method := rt.Method
+		if method == router.AnyMethod {
+			method = http.MethodGet
+		}
+
+		return c40Req{Route: rt.Method + " " + rt.Endpoint, Method: method, URL: rt.Endpoint, Who: "hostile",
+			Headers: [][2]string{{"Authorization", c.header}, {"Accept", "*/*"}}}
+	}
+
+	for i, c := range e.c40HostileCreds() {
+		res = append(res, mk(first, c))
+
+		if c.costly {
+			e.stats.Inc("credentials-deriving-a-key")
+
+			continue
+		}
+
+		if rt := targets[i%len(targets)]; rt.Endpoint != first.Endpoint || rt.Method != first.Method {
+			res = append(res, mk(rt, c))
+		}
+	}
+
+	return res
+}
+
+// hostileCred draws one hostile credential: a magic and a random payload of random length; complete salts (a key
+// derivation) one time in sixteen.
+func (e *c40Env) hostileCred() string {
+	m := e.pick(c40Magics)
+	n := e.rnd.Intn(16)
+
+	if e.rnd.Intn(16) == 0 {
+		n = 16 + e.rnd.Intn(48)
+	}
+
+	b := make([]byte, n)
+	e.rnd.Read(b)
+
+	h := verifh.Hex(m + string(b))
+	if h == "-" {
+		h = ""
+	}
+
+	switch e.rnd.Intn(8) {
+	case 0:
+		h = strings.ToUpper(h)
+	case 1:
+		h += e.pick([]string{"0", "g", " ", ".", "ff"})
+	}
+
+	return e.pick([]string{"Bearer ", "Bearer ", "bearer ", "BEARER  "}) + h
+}
+
 func (e *c40Env) authHeader(who string) string {
 	switch who {
 	case "admin":
@@ -575,6 +790,10 @@ func (e *c40Env) authHeader(who string) string {
 	case "user-token":
 		return "Bearer " + e.tokens["user"]
 	case "bad":
+		if e.rnd.Intn(2) == 0 {
+			return e.hostileCred()
+		}
+
 		return e.pick(c40BadAuth)
 	}
 
@@ -1089,6 +1308,15 @@ func TestVerifC40(t *testing.T) {
 	e.stats.Add("corpus", e.stats.M["requests"])
 	e.restore()
 
+	t0 := time.Now()
+
+	for _, q := range e.credentials() {
+		e.run(q, &ranNow)
+		e.stats.Inc("hostile-credentials")
+	}
+
+	e.stats.Add("ms_credentials", int(time.Since(t0).Milliseconds()))
+
 	for i, q := range e.sweep() {
 		e.run(q, &ranNow)
 
@@ -1097,7 +1325,7 @@ func TestVerifC40(t *testing.T) {
 		}
 	}
 
-	e.stats.Add("sweep", e.stats.M["requests"]-e.stats.M["corpus"])
+	e.stats.Add("sweep", e.stats.M["requests"]-e.stats.M["corpus"]-e.stats.M["hostile-credentials"])
 	e.restore()
 
 	per := verifh.N(10, 300)
